@@ -432,6 +432,14 @@ impl Oracle {
                 // (matches the optimised engine misses are caught above)
                 let rest = Input::new(haystack).span(l.start..haystack.len());
                 let mm = e.meta.search(&rest);
+                // ... and the search itself: what the optimised engine finds
+                // first from this line's start is what the NFA simulation
+                // finds first from there (whether a match exists *in this
+                // line* can depend on the text after it: `(?:abc)*a` searched
+                // in "xabcxa" from 0 is reported at 5..6 instead of 1..2)
+                if e.search(&rest).map(|x| x.range()) != mm.map(|m| m.range()) {
+                    return true;
+                }
                 if mm.map(|m| m.end())
                     != e.meta.search_half(&rest).map(|m| m.offset())
                     || mm.is_some() != e.meta.is_match(rest.clone())
